@@ -10,6 +10,9 @@ run are the obligations the re-generation cannot see:
   never deletes, so a generated page or module whose definition is gone survives every re-run unchanged;
 * equality of the tables recovered by `ast` from the checked-in modules (structure classes with parent and
   DataHolder registration, protocol ids, NORESPONSE, method names and ids) with those of the definitions.
+The same checker is applied a second time per run to the names of the files that one generator run wrote into
+empty output directories (`run_writes_exactly_the_definitions`): a definition the generator silently gives up on
+has no output of "this run", although its checked-in files still sit in the tree.
 The theorems below say what a discharged `inventoryOK` obligation means.
 -/
 namespace Nx.C12
@@ -26,7 +29,23 @@ theorem orphan_page_detected (protos modules pages : List Nat) (x : Nat) (hx : x
     inventoryOK protos modules pages = false :=
   orphan_breaks protos modules pages x hx hp
 
+/-- the same obligation on the names of the files ONE generator run wrote into empty output directories: every
+    definition got its module and its page from that run, and the run wrote nothing that belongs to no definition
+    (the generator's exit status and log are not part of the statement) -/
+theorem run_writes_exactly_the_definitions (protos written_modules written_pages : List Nat)
+    (h : inventoryOK protos written_modules written_pages = true) :
+    (∀ x ∈ protos, x ∈ written_modules ∧ x ∈ written_pages) ∧
+    (∀ x, x ∈ written_modules ∨ x ∈ written_pages → x ∈ protos) :=
+  run_complete protos written_modules written_pages h
+
+/-- a definition for which the run wrote no module or no page makes the obligation fail, whatever else was written -/
+theorem unwritten_definition_detected (protos written_modules written_pages : List Nat) (x : Nat) (hx : x ∈ protos)
+    (hw : x ∉ written_modules ∨ x ∉ written_pages) : inventoryOK protos written_modules written_pages = false :=
+  unwritten_breaks protos written_modules written_pages x hx hw
+
 /-! non-vacuity -/
+example : inventoryOK [1, 2, 3] [3, 1] [2, 3, 1] = false := by decide
+example : missing [1, 2, 3] [3, 1] = [2] := by decide
 example : inventoryOK [1, 2, 3] [3, 1, 2] [2, 3, 1] = true := by decide
 example : inventoryOK [1, 2, 3] [3, 1, 2] [2, 3, 1, 4] = false := by decide
 example : missing [2, 3, 1, 4] [1, 2, 3] = [4] := by decide
